@@ -56,11 +56,13 @@ Record sstate := mkS {
                           produce, in order *)
   s_acc : bytes;       (* everything accepted by send/buffer so far *)
   s_wl : nat;          (* bytes on the wire so far *)
-  s_sintr : list exn   (* interruptions the sending network will still produce *)
+  s_sintr : list exn;  (* interruptions the sending network will still produce *)
+  s_dl : bool          (* the socket has a timeout: a call may also raise Timeout because its own
+                          deadline expired, without any interruption from the network *)
 }.
 
-Definition spec_init (stream : bytes) (maxsize : nat) (ri si : list exn) : sstate :=
-  mkS stream (Some maxsize) ri [] 0 si.
+Definition spec_init (stream : bytes) (maxsize : nat) (ri si : list exn) (dl : bool) : sstate :=
+  mkS stream (Some maxsize) ri [] 0 si dl.
 
 (* an interruption outcome must be the next interruption of the network *)
 Definition next_intr (out : outcome) (pending : list exn) : option (list exn) :=
@@ -68,6 +70,16 @@ Definition next_intr (out : outcome) (pending : list exn) : option (list exn) :=
   | OExn e, e' :: r => if exn_eqb e e' then Some r else None
   | _, _ => None
   end.
+
+(* An interruption outcome is legitimate in two ways: the network produced it
+   (exactly one of the pending interruptions was raised during the call, and it
+   is this one: Some rest), or - only for Timeout and only if the socket has a
+   timeout - the call's own deadline expired while the network raised nothing
+   (Some pending).  [left] = interruptions not yet raised after the call. *)
+Definition explain_intr (dl : bool) (out : outcome) (pending : list exn) (left : nat) : option (list exn) :=
+  if Nat.eqb (S left) (length pending) then next_intr out pending
+  else if Nat.eqb left (length pending) && outcome_eqb out (OExn Timeout) && dl then Some pending
+  else None.
 
 (* One observed call.  [stream] is the whole byte stream the peer sends,
    [wire] everything the peer has received by the end of the history.
@@ -81,14 +93,14 @@ Definition spec_step (stream wire : bytes) (s : sstate) (o : op) (ob : step_obs)
     if is_interrupt out then
       (* a Timeout / socket error may only come from the network, in the order the
          network produces them, and loses nothing *)
-      match next_intr out (s_intr s) with
+      match explain_intr (s_dl s) out (s_intr s) (o_left ob) with
       | None => None
       | Some t => if conserved (s_rem s)
-                  then Some (mkS (s_rem s) (s_max s) t (s_acc s) (s_wl s) (s_sintr s)) else None
+                  then Some (mkS (s_rem s) (s_max s) t (s_acc s) (s_wl s) (s_sintr s) (s_dl s)) else None
       end
     else
       let next rem' := if conserved rem'
-                       then Some (mkS rem' (s_max s) (s_intr s) (s_acc s) (s_wl s) (s_sintr s)) else None in
+                       then Some (mkS rem' (s_max s) (s_intr s) (s_acc s) (s_wl s) (s_sintr s) (s_dl s)) else None in
       match o with
       | Recv size =>
           match out with
@@ -104,20 +116,21 @@ Definition spec_step (stream wire : bytes) (s : sstate) (o : op) (ob : step_obs)
   else
     match o with
     | SetMaxsize m =>
-        if outcome_eqb out ONone then Some (mkS (s_rem s) m (s_intr s) (s_acc s) (s_wl s) (s_sintr s)) else None
+        if outcome_eqb out ONone then Some (mkS (s_rem s) m (s_intr s) (s_acc s) (s_wl s) (s_sintr s) (s_dl s)) else None
     | Send _ | Buffer _ | Flush =>
         let acc' := match o with Send d | Buffer d => s_acc s ++ d | _ => s_acc s end in
         (* wire ++ send buffer = accepted, in order; the wire only grows *)
         let conserved := bytes_eqb (firstn (o_cnt ob) wire ++ o_buf ob) acc'
                          && Nat.leb (s_wl s) (o_cnt ob) && Nat.leb (o_cnt ob) (length wire) in
         let next si := if conserved
-                       then Some (mkS (s_rem s) (s_max s) (s_intr s) acc' (o_cnt ob) si) else None in
+                       then Some (mkS (s_rem s) (s_max s) (s_intr s) acc' (o_cnt ob) si (s_dl s)) else None in
         match o, out with
         | Buffer _, ONone => if Nat.eqb (o_cnt ob) (s_wl s) then next (s_sintr s) else None
         | Buffer _, _ => None
         (* interrupted (after 0 or more bytes went out): the unsent rest stays buffered *)
         | _, OExn _ => if is_interrupt out
-                       then match next_intr out (s_sintr s) with Some t => next t | None => None end
+                       then match explain_intr (s_dl s) out (s_sintr s) (o_left ob) with
+                            | Some t => next t | None => None end
                        else None
         (* success: everything accepted so far is on the wire; send returns the
            number of bytes this call put there *)
@@ -143,9 +156,9 @@ Definition spec_final (stream : bytes) (s : sstate) (f : final_obs) : bool :=
   bytes_eqb (f_rbuf f ++ skipn (f_consumed f) stream) (s_rem s) &&
   bytes_eqb (f_wire f ++ f_sbuf f) (s_acc s) && Nat.eqb (length (f_wire f)) (s_wl s).
 
-Definition spec_holds (stream : bytes) (maxsize : nat) (ri si : list exn)
+Definition spec_holds (stream : bytes) (maxsize : nat) (ri si : list exn) (dl : bool)
            (steps : list (op * step_obs)) (f : final_obs) : bool :=
-  match spec_run stream (f_wire f) (spec_init stream maxsize ri si) steps with
+  match spec_run stream (f_wire f) (spec_init stream maxsize ri si dl) steps with
   | Some s => spec_final stream s f
   | None => false
   end.
@@ -179,7 +192,8 @@ Fixpoint spec_reads (stream : bytes) (maxsize : nat) (rem : bytes) (ps : list by
       let out := o_out ob in
       let conserved rem' := bytes_eqb (o_buf ob ++ skipn (o_cnt ob) stream) rem' in
       if is_interrupt out then
-        match next_intr out tmo with
+        (* the inner BufferedSocket always has a timeout: the deadline may expire *)
+        match explain_intr true out tmo (o_left ob) with
         | None => false
         | Some t => conserved rem && spec_reads stream maxsize rem ps t clean_end r
         end
@@ -220,7 +234,7 @@ Fixpoint spec_writes (maxsize : nat) (wire acc : bytes) (ps : list bytes) (pend 
         if outcome_eqb out ONone
         then if conserved acc' && is_nil (o_buf ob) then spec_writes maxsize wire acc' ps' pend r else None
         else if is_interrupt out
-             then match next_intr out pend with
+             then match explain_intr true out pend (o_left ob) with
                   | Some t => if conserved acc' then spec_writes maxsize wire acc' ps' t r else None
                   | None => None
                   end
